@@ -261,6 +261,25 @@ func (e *Engine) VerifyFunc(pkgPath, key string, modular bool) (rep *FuncReport,
 	}
 	fs := sp.Funcs[key]
 	decl := e.funcs[fn]
+	var outerObjs []types.Object
+	if fs.Closure {
+		// the contract speaks about the function literal that fn returns: its body is verified as a function of its own
+		// parameters; the parameters of fn are its free variables
+		var lit *ast.FuncLit
+		ast.Inspect(decl.Body, func(n ast.Node) bool {
+			if r, ok := n.(*ast.ReturnStmt); ok && len(r.Results) == 1 {
+				if l, ok := r.Results[0].(*ast.FuncLit); ok && lit == nil {
+					lit = l
+				}
+			}
+			return true
+		})
+		if lit == nil {
+			return nil, fmt.Errorf("%s.%s: no returned function literal (contract out of date)", pkgPath, key)
+		}
+		_, outerObjs = paramNames(decl, pkg.TypesInfo)
+		decl = &ast.FuncDecl{Name: decl.Name, Type: lit.Type, Body: lit.Body}
+	}
 	if fs.Trusted {
 		r := &FuncReport{Func: pkg.Types.Name() + "." + key, Trusted: true, Clauses: len(fs.Clauses)}
 		r.File, r.Line, r.SrcHash = e.srcInfo(pkg, decl)
@@ -343,6 +362,19 @@ func (e *Engine) VerifyFunc(pkgPath, key string, modular bool) (rep *FuncReport,
 	for i, o := range objs {
 		st.vars[o] = args[i]
 	}
+	for _, o := range outerObjs { // free variables of a closure: function-typed ones are callable, others symbolic
+		if o == nil {
+			continue
+		}
+		ty := e.typeOf(o.Type())
+		if ty.K == spec.KUnit {
+			st.vars[o] = unit()
+			continue
+		}
+		c := sx.Atom("p_" + o.Name())
+		e.consts = append(e.consts, smt.Var{Name: c.A, Sort: ty.Sort()})
+		st.vars[o] = Val{TV: spec.TV{T: c, Ty: ty}}
+	}
 	var normal []Exit
 	fr.onRet = func(st *State, rets []Val) { normal = append(normal, Exit{St: st, Rets: rets}) }
 	e.stmts(fr, st, decl.Body.List, func(st *State) { fr.onRet(st, nil) })
@@ -373,6 +405,13 @@ func (e *Engine) VerifyFunc(pkgPath, key string, modular bool) (rep *FuncReport,
 					env.Vars[n+".opts"] = spec.TV{T: sx.Int(it.Opts), Ty: spec.Type{K: spec.KInt}}
 					env.Vars[n+".store"] = spec.TV{T: it.Store, Ty: spec.Type{K: spec.KStore}}
 					env.Vars[n+".pos"] = spec.TV{T: ex.Rets[i].T, Ty: spec.Type{K: spec.KInt}}
+				}
+			}
+		}
+		for i, o := range objs { // cur(p): the value a (pointer or reassigned) parameter holds at the exit
+			if i < len(names) {
+				if val, ok := ex.St.vars[o]; ok && val.T != nil && val.Iter == nil {
+					env.Vars["$cur."+names[i]] = val.TV
 				}
 			}
 		}
